@@ -5,7 +5,8 @@ import GaeaVerif.Model.TokenizeC06
     /repo/proxy/server/executor_handle.go   preBuildUnshardPlan
     /repo/proxy/plan/plan_unshard.go        CheckUnshardBase / CheckUnshardInsert /
                                             CheckUnshardUpdate, MentionsShardTable,
-                                            PreCreateUnshardPlan
+                                            isMentioned, withoutVersionNumber,
+                                            isNotIdentifierRune, PreCreateUnshardPlan
     /repo/proxy/router/router.go            Router.GetRule (rule present or default)
 
   The router is the list of its rule keys `(db, table)`: `NewRouter` stores a
@@ -113,17 +114,77 @@ def checkUnshardUpdate (tokens : List Str) (rules : List (Str × Str)) (db : Str
   | t0 :: tl => checkUpdateLoop rules db t0 tl
 
 /-- `isNotIdentifierRune` of plan_unshard.go, negated: letters, digits, `_`, `$`
-    and every non-ASCII character. -/
+    and every non-ASCII character that is not Unicode white space (the parser
+    skips `unicode.IsSpace` characters before a token). -/
 def isIdentChar (c : Char) : Bool :=
+  if c.val ≥ 0x80 then !isSpace c
+  else c == '_' || c == '$' || ('0' ≤ c && c ≤ '9') || ('a' ≤ c && c ≤ 'z') || ('A' ≤ c && c ≤ 'Z')
+
+/-- `isNotIdentifierRune` before the `fix:` commit about Unicode white space:
+    every non-ASCII character counted as an identifier character. -/
+def isIdentCharV1 (c : Char) : Bool :=
   c == '_' || c == '$' || c.val ≥ 0x80 ||
   ('0' ≤ c && c ≤ '9') || ('a' ≤ c && c ≤ 'z') || ('A' ≤ c && c ≤ 'Z')
 
-/-- The words `MentionsShardTable` looks up: `strings.FieldsFunc(sql, isNotIdentifierRune)`. -/
+/-- The words of a text: `strings.FieldsFunc(sql, isNotIdentifierRune)`. -/
 def identWords (sql : Str) : List Str := fieldsFunc (fun c => !isIdentChar c) sql
+
+def isDigit (c : Char) : Bool := '0' ≤ c && c ≤ '9'
+
+/-- `strings.TrimPrefix(word, "M")`. -/
+def trimPrefixM (word : Str) : Str :=
+  match word with
+  | 'M' :: r => r
+  | _ => word
+
+/-- `withoutVersionNumber(word)`: the word without a leading `M?[0-9]{5,6}`, in the
+    ways it can be read (5 digits, 6 digits). -/
+def withoutVersionNumber (word : Str) : List Str :=
+  let w := trimPrefixM word
+  let d := (w.takeWhile isDigit).length
+  (if 5 ≤ d then [w.drop 5] else []) ++ (if 6 ≤ d then [w.drop 6] else [])
+
+/-- `"/*!"`: the opening of an executable comment. -/
+def versionMark : Str := ['/', '*', '!']
+
+/-- The set `words` of `MentionsShardTable`: the lower-cased words of the
+    statement and, when the statement contains `/*!`, each word without a
+    leading version number. -/
+def statementWords (sql : Str) : List Str :=
+  if containsSub versionMark sql then
+    (identWords sql).flatMap fun w => toLower w :: (withoutVersionNumber w).map toLower
+  else (identWords sql).map toLower
+
+/-- `isMentioned(table, words)`: every word of the table name is among `words`. -/
+def isMentioned (table : Str) (words : List Str) : Bool :=
+  (identWords table).all fun p => words.contains p
 
 /-- `MentionsShardTable(sql, rt)`. -/
 def mentionsShardTable (sql : Str) (rules : List (Str × Str)) : Bool :=
-  (identWords sql).any fun w => rules.any fun r => r.2 == toLower w
+  let words := statementWords sql
+  rules.any fun r => isMentioned r.2 words
+
+/-- `MentionsShardTable` as the first repair introduced it (before the three
+    later `fix:` commits): some word of the statement — non-ASCII white space
+    counted as identifier characters — is, lower-cased, a table with a rule. -/
+def mentionsShardTableV1 (sql : Str) (rules : List (Str × Str)) : Bool :=
+  (fieldsFunc (fun c => !isIdentCharV1 c) sql).any fun w => rules.any fun r => r.2 == toLower w
+
+/-- Which backstop scan `preBuildUnshardPlan` runs after the token checks. -/
+inductive Guard where
+  /-- none: the pinned tree -/
+  | none
+  /-- `mentionsShardTableV1`: the tree after the first repair -/
+  | v1
+  /-- `mentionsShardTable`: the current tree -/
+  | cur
+  deriving Repr, DecidableEq
+
+def Guard.mentions (g : Guard) (sql : Str) (rules : List (Str × Str)) : Bool :=
+  match g with
+  | .none => false
+  | .v1 => mentionsShardTableV1 sql rules
+  | .cur => mentionsShardTable sql rules
 
 /-- `PreCreateUnshardPlan(sql, phyDBs, db)` succeeds. -/
 def preCreateOK (phyDBs : List (Str × Str)) (db : Str) : Bool :=
@@ -156,19 +217,20 @@ def tokenCheck (cfg : Cfg) (db : Str) (kw : Kw) (tokens : List Str) : Option (St
   | .update => some (checkUnshardUpdate tokens cfg.rules db)
   | .other => none
 
-/-- The end of `preBuildUnshardPlan`: the `MentionsShardTable` guard (present iff
-    `guard`) and `PreCreateUnshardPlan` for the database the token check chose. -/
-def finish (guard : Bool) (cfg : Cfg) (sql : Str) (r : Option (Str × Bool)) : Pre :=
+/-- The end of `preBuildUnshardPlan`: the `MentionsShardTable` guard (in the
+    version `guard`) and `PreCreateUnshardPlan` for the database the token check chose. -/
+def finish (guard : Guard) (cfg : Cfg) (sql : Str) (r : Option (Str × Bool)) : Pre :=
   match r with
   | none => .no
   | some (ruleDB, isUnshard) =>
-    if isUnshard && !(guard && mentionsShardTable sql cfg.rules) && preCreateOK cfg.phyDBs ruleDB
+    if isUnshard && !(guard.mentions sql cfg.rules) && preCreateOK cfg.phyDBs ruleDB
     then .unshard ruleDB else .no
 
 /-- The decision of `preBuildUnshardPlan` once the tokens are known.
-    `guard = false` gives the pre-check of the pinned tree (before the fix that
-    added the `MentionsShardTable` guard); it is kept for the witness theorems. -/
-def preDecide (guard : Bool) (cfg : Cfg) (db : Str) (stmtType : Nat) (sql : Str) (tokens : List Str) : Pre :=
+    `guard = .none` gives the pre-check of the pinned tree (before the fix that
+    added the `MentionsShardTable` guard), `.v1` the one after that first fix;
+    they are kept for the witness theorems. -/
+def preDecide (guard : Guard) (cfg : Cfg) (db : Str) (stmtType : Nat) (sql : Str) (tokens : List Str) : Pre :=
   match tokens with
   | [] => .no
   | t0 :: _ =>
@@ -206,14 +268,21 @@ def checkerScan (rules : List (Str × Str)) (db : Str) : List (Str × Str) → C
 /-- `SessionExecutor.preBuildUnshardPlan(reqCtx, db, sql)` (current tree). -/
 def preBuildUnshardPlan (cfg : Cfg) (db : Str) (stmtType : Nat) (sql : Str) : R Pre :=
   match tokenize sql with
-  | .ok tokens => .ok (preDecide true cfg db stmtType sql tokens)
+  | .ok tokens => .ok (preDecide .cur cfg db stmtType sql tokens)
   | .fail => .fail
   | .panic => .panic
 
 /-- The pre-check of the pinned tree (no `MentionsShardTable` guard). -/
 def preBuildUnshardPlanPinned (cfg : Cfg) (db : Str) (stmtType : Nat) (sql : Str) : R Pre :=
   match tokenize sql with
-  | .ok tokens => .ok (preDecide false cfg db stmtType sql tokens)
+  | .ok tokens => .ok (preDecide .none cfg db stmtType sql tokens)
+  | .fail => .fail
+  | .panic => .panic
+
+/-- The pre-check after the first repair (the word scan `mentionsShardTableV1`). -/
+def preBuildUnshardPlanV1 (cfg : Cfg) (db : Str) (stmtType : Nat) (sql : Str) : R Pre :=
+  match tokenize sql with
+  | .ok tokens => .ok (preDecide .v1 cfg db stmtType sql tokens)
   | .fail => .fail
   | .panic => .panic
 
